@@ -99,8 +99,8 @@ class Lib:
             for _ in range(rng.randrange(1, 6)):
                 kind = rng.choice(['method', 'method', 'static', 'const', 'virtual', 'virtual', 'field', 'overload', 'operator'])
                 if kind == 'field':
-                    sk = rng.choice(list(SCALAR) + (['string'] if self.use_string else []))
-                    c['fields'].append({'name': self.fresh('f'), 'kind': sk, 'src': SCALAR[sk][0] if sk in SCALAR else 'std::string'})
+                    sk = rng.choice(list(SCALAR) + ['iarr', 'iarr'] + (['string'] if self.use_string else []))
+                    c['fields'].append({'name': self.fresh('f'), 'kind': sk, 'src': SCALAR[sk][0] if sk in SCALAR else ('int' if sk == 'iarr' else 'std::string')})
                 elif kind == 'overload':
                     nm = self.fresh('ov')
                     shapes = [[('i32', None)], [('f64', None)], [('i32', None), ('i32', None)], [], [('objcref', name)], [('cstr', None)], [('bool', None), ('f32', None)]]
@@ -176,7 +176,7 @@ class Lib:
                 L.append('  %s%s%s %s(%s)%s;' % ('static ' if m['static'] else '', 'virtual ' if m['virtual'] else '', m['ret']['src'], m['name'], self.params_src(m['params'], True),
                                                ' const' if m['const'] else ''))
             for f in c['fields']:
-                L.append('  %s %s;' % (f['src'], f['name']))
+                L.append('  %s %s%s;' % (f['src'], f['name'], '[3]' if f['kind'] == 'iarr' else ''))
             L.append('public:')
             L.append('  long long state_%s;' % c['name'])
             L.append('  mutable char buf_%s[64];' % c['name'])
@@ -276,7 +276,9 @@ class Lib:
             L.append('%s::%s(int v)%s {' % (c['name'], c['name'], (' : ' + inits) if inits else ''))
             L.append('  state_%s = v;' % c['name'])
             for f in c['fields']:
-                if f['kind'] == 'string':
+                if f['kind'] == 'iarr':
+                    L.append('  %s[0] = 1; %s[1] = 2; %s[2] = 3;' % (f['name'], f['name'], f['name']))
+                elif f['kind'] == 'string':
                     L.append('  %s = "init";' % f['name'])
                 elif f['kind'] == 'enum':
                     L.append('  %s = MA;' % f['name'])
